@@ -1364,7 +1364,7 @@ class VM:
             initial = args[1] if len(args) > 1 else UNDEFINED
             acc = initial
             start_idx = 0
-            if acc is UNDEFINED:
+            if len(args) < 2:  # no initial value (an explicit undefined is one)
                 if not arr._elements:
                     raise JSTypeError("Reduce of empty array with no initial value")
                 acc = arr._elements[0]
@@ -1382,7 +1382,7 @@ class VM:
             acc = initial
             length = len(arr._elements)
             start_idx = length - 1
-            if acc is UNDEFINED:
+            if len(args) < 2:  # no initial value (an explicit undefined is one)
                 if not arr._elements:
                     raise JSTypeError("Reduce of empty array with no initial value")
                 acc = arr._elements[length - 1]
